@@ -71,7 +71,7 @@ impl Engine for C06 {
             None,
             None,
             4,
-            max_steps(&case.tier),
+            steps_for(case),
             move || -> Result<(Got, usize, usize, bool), String> {
                 let fmt = SeqFormat::get(&p2).ok_or_else(|| "format not inferred from suffix".to_string())?;
                 let fmt_ok = matches!(
